@@ -60,6 +60,9 @@ type ValueCase struct {
 	// the two tasks (and the gateway) live inside an embedded sub-process; the data objects are declared by the
 	// process around it
 	InSub bool `json:"inSub,omitempty"`
+	// the initial variables come from two WithVariables options: a map of defaults the application built once and
+	// passes to every instance, followed by the instance's own variables (among them one under a name of its own)
+	SplitVars bool `json:"splitVars,omitempty"`
 	env       *Env
 	defs      any
 	obs       []map[string]any // per instance: what was read
@@ -270,6 +273,7 @@ func genC16(d *Draw) Case {
 		c.Gate = d.Bool()
 		c.Shared = d.N(3) == 2
 		c.InSub = d.N(3) == 2
+		c.SplitVars = d.N(3) == 2
 		if c.Shared {
 			// conditions look data objects up by the name the document declares; objects that only the option
 			// supplies have none (they are read back through the next task's data input, by id)
@@ -506,13 +510,19 @@ func (c *ValueCase) Main() {
 		}
 		sharedOpts = []bpmn.Option{bpmn.WithDataObjects(init)}
 	}
+	defaults := map[string]any{"dflt0": "common", "dflt1": 7}
 	client := func(i int) {
 		defer func() { done <- i }()
 		vars := map[string]any{}
 		for k, s := range c.Vars {
 			vars[fmt.Sprintf("v%d", k)] = mkValue(s, i)
 		}
-		opts := append(append([]bpmn.Option{}, sharedOpts...), bpmn.WithContext(ctx), bpmn.WithVariables(vars), bpmn.WithIdGenerator(&ctrGen{prefix: fmt.Sprintf("i%d-", i)}))
+		opts := append(append([]bpmn.Option{}, sharedOpts...), bpmn.WithContext(ctx))
+		if c.SplitVars {
+			vars[fmt.Sprintf("own%d", i)] = fmt.Sprintf("mine#%d", i)
+			opts = append(opts, bpmn.WithVariables(defaults))
+		}
+		opts = append(opts, bpmn.WithVariables(vars), bpmn.WithIdGenerator(&ctrGen{prefix: fmt.Sprintf("i%d-", i)}))
 		proc, err := engine.NewProcess(defs, opts...)
 		if err != nil {
 			L.AddG(i, "fatal", "NewProcess: "+err.Error(), "", 0)
@@ -647,6 +657,10 @@ func (c *ValueCase) Main() {
 			k = got
 		}
 	}
+	if c.SplitVars {
+		dk := sortedKeys(defaults)
+		L.AddV("defaults-after", strings.Join(dk, ","), map[string]any{"dflt0": defaults["dflt0"], "dflt1": defaults["dflt1"]})
+	}
 	L.Add("end", "", "", 0)
 }
 
@@ -694,6 +708,14 @@ func checkC16(cc Case, r *simrt.Result) *Outcome {
 		}
 	}
 	quiesced := !r.StepCap && !r.Horizon
+	for _, ev := range c.env.L.E {
+		if ev.Kind == "defaults-after" {
+			m, _ := ev.V.(map[string]any)
+			if ev.A != "dflt0,dflt1" || m["dflt0"] != "common" || m["dflt1"] != 7 {
+				vl.add("C16/not-isolated", "the map of defaults the application passed to every instance through WithVariables was changed by creating the instances: it holds %s = %v afterwards, want dflt0,dflt1 = common, 7", ev.A, m)
+			}
+		}
+	}
 	for i := 0; i < c.Instances && len(r.Panics) == 0 && quiesced; i++ {
 		obs := c.obs[i]
 		if obs["complete"] != true {
@@ -750,6 +772,18 @@ func checkC16(cc Case, r *simrt.Result) *Outcome {
 		atEnd, _ := obs["vars-at-end"].(map[string]any)
 		props, _ := obs["props"].(map[string]any)
 		objs, _ := obs["objects"].(map[string]any)
+		if c.SplitVars {
+			for n := range atStart {
+				if strings.HasPrefix(n, "own") && n != fmt.Sprintf("own%d", i) {
+					vl.add("C16/not-isolated", "instance %d starts with variable %s, which only another instance was given", i, n)
+				}
+			}
+			for _, n := range []string{"dflt0", "dflt1", fmt.Sprintf("own%d", i)} {
+				if atStart[n] == nil {
+					vl.add("C16/value-lost", "instance %d: variable %s, given through one of two WithVariables options, is not there right after the start", i, n)
+				}
+			}
+		}
 		for k, s := range c.Vars {
 			n := fmt.Sprintf("v%d", k)
 			check("variable (right after the start)", n, s, atStart[n])
@@ -780,6 +814,7 @@ func checkC16(cc Case, r *simrt.Result) *Outcome {
 	probe(o, "tasks-inside-a-sub-process-data-objects-declared-outside", c.InSub)
 	probe(o, "data-objects-from-one-option-value-shared-by-all-instances", c.Shared && c.Instances > 1)
 	probe(o, "gateway-reads-each-instance's-data-object", c.Gate)
+	probe(o, "initial-variables-from-two-options-defaults-shared-by-all-instances", c.SplitVars && c.Instances > 1)
 	probe(o, "gateway-reads-data-object-several-instances-at-once", c.Gate && c.Instances > 1 && c.Conc)
 	for _, ov := range c.Over {
 		prev, _ := c.specAt(ov.Name, map[string]int{"set": 0, "t1": 0, "t2": 1}[ov.Via])
